@@ -67,6 +67,7 @@ type roomCtx struct {
 	order      []string
 	depth      int64
 	lack       map[string]gmsl.PDU
+	names      map[string]string // signature entry names of the subject being built
 	prb        []gmsl.PDU
 }
 
